@@ -195,19 +195,41 @@ choose_keys(int nkeys)
         }
     } else {
         static const char alpha[] = { 0, 1, 'a', 'b', 'c', (char)0xff, (char)0x80 };
+        /* two keys of one length that agree up to AND INCLUDING a zero byte, differ after it, and share a bucket
+         * (a comparison that stops at the zero byte confuses them): 343 spellings a\0xyz into 101 buckets must collide */
+        int found = 0, i, j, n = 0, bk[343];
+        char sp[343][5];
+        for (i = 0; i < 7 * 7 * 7; i++) {
+            sp[n][0] = 'a';
+            sp[n][1] = 0;
+            sp[n][2] = alpha[i % 7];
+            sp[n][3] = alpha[i / 7 % 7];
+            sp[n][4] = alpha[i / 49];
+            bk[n] = bucket_of(sp[n], 5);
+            n++;
+        }
         NK = 0;
-        add_key("a\0b", 3);
-        b0 = bucket_of("a\0b", 3);
-        if (!find_key(alpha, 7, 1, 5, "a\0b", 3, b0, NULL, buf, &l))
+        for (i = 0; i < n && !found; i++)
+            for (j = i + 1; j < n && !found; j++)
+                if (bk[i] == bk[j]) {
+                    add_key(sp[i], 5);
+                    add_key(sp[j], 5);
+                    found = 1;
+                }
+        if (!found) {
+            fprintf(stderr, "key search failed\n");
             exit(2);
-        add_key(buf, l); /* extends a\0b, same bucket */
+        }
+        b0 = bucket_of(K[0].bytes, K[0].len);
+        if (!find_key(alpha, 7, 1, 5, K[0].bytes, K[0].len, b0, NULL, buf, &l))
+            exit(2);
+        add_key(buf, l); /* extends key 0, same bucket */
         if (!find_key(alpha, 7, 1, 5, "", 0, b0, NULL, buf, &l))
             exit(2);
         add_key(buf, l); /* unrelated, same bucket */
         add_key("\0", 1);
-        add_key("\0\0", 2);
         add_key("", 0);
-        add_key("a\0c", 3);
+        add_key("\0\0", 2);
         add_key("a", 1);
     }
     if (NK > nkeys)
